@@ -68,7 +68,21 @@ func init() {
 	regRow[uintptr]("uintptr")
 	regRow[float32]("float32")
 	regRow[float64]("float64")
+	// named element types on the slice side, the buffer side or both
+	reg[kit.NInt16, int16]("NInt16", "int16")
+	reg[int16, kit.NInt16]("int16", "NInt16")
+	reg[kit.NInt16, kit.NInt16]("NInt16", "NInt16")
+	reg[kit.NFloat32, float32]("NFloat32", "float32")
+	reg[float32, kit.NFloat32]("float32", "NFloat32")
+	reg[kit.NFloat32, kit.NFloat32]("NFloat32", "NFloat32")
+	reg[kit.NUint8, float64]("NUint8", "float64")
+	reg[float64, kit.NInt16]("float64", "NInt16")
+	reg[kit.NUint8, kit.NInt16]("NUint8", "NInt16")
 }
+
+// NamedPairs are the slice/buffer element-type pairs with named types.
+var NamedPairs = [][2]string{{"NInt16", "int16"}, {"int16", "NInt16"}, {"NInt16", "NInt16"}, {"NFloat32", "float32"}, {"float32", "NFloat32"},
+	{"NFloat32", "NFloat32"}, {"NUint8", "float64"}, {"float64", "NInt16"}, {"NUint8", "NInt16"}}
 
 // valid reports whether the case is inside the property's domain.
 func (c *Case) valid() bool {
@@ -398,6 +412,10 @@ var names = kit.BuiltinNames()
 func Gen(t *rapid.T) *Case {
 	p := rapid.IntRange(0, len(names)*len(names)-1).Draw(t, "pair")
 	c := &Case{S: names[p/len(names)], B: names[p%len(names)]}
+	if rapid.IntRange(0, 11).Draw(t, "namedSel") == 0 {
+		np := rapid.SampledFrom(NamedPairs).Draw(t, "namedPair")
+		c.S, c.B = np[0], np[1]
+	}
 	si, bi := kit.Info(c.S), kit.Info(c.B)
 	c.C = kit.GenChannels(t)
 	c.Kr, c.A, c.Bf = kit.GenWindow(t, "w", 600)
